@@ -149,6 +149,3 @@ func cmdDump(args []string) {
 	}
 }
 
-func cmdCheck(args []string)  { fmt.Println("not yet"); os.Exit(2) }
-func cmdLock(args []string)   { fmt.Println("not yet"); os.Exit(2) }
-func cmdReplay(args []string) { fmt.Println("not yet"); os.Exit(2) }
